@@ -88,10 +88,19 @@ def run(ctx):
         used = par is not None and par.k not in ('ExprWithCleanups', 'CompoundStmt')
         cmps = [x for x in pg.calls() if x.callee is not None and x.r.get('op') in ('==', '!=') and
                 any(((a.type or {}).get('rec') or '').split('::')[-1] in ('MessageSpec', 'FieldTraits', 'Presence') for a in ([x.obj] if x.obj is not None else []) + x.args)]
+        cfg = pg.cfg
         fcmp = [x for x in pg.calls() if x.callee is not None and pg.tu.types[x.callee['ret']]['k'] == 'bool' and
-                sum(1 for a in x.args if ((a.type or {}).get('rec') or '').split('::')[-1] == 'MessageSpec') >= 2 and
-                pg.cfg.has_vertex(x) and pg.cfg.dominates(pg.cfg.vertex_of(x), pg.cfg.vertex_of(c))]
-        confirmed = confirmed or (used and bool(cmps)) or bool(fcmp)
+                sum(1 for a in x.args if ((a.type or {}).get('rec') or '').split('::')[-1] == 'MessageSpec') >= 2 and cfg.has_vertex(x)]
+        # every way from "this key is already taken" to the insert must pass the comparison
+        hits = q.branches(pg, lambda a: a.is_call and a.r.get('op') in ('!=', '==') and
+                          any(y.is_call and y.callee is not None and y.callee.get('n') == 'find' and y.args and hv and q.refers_to_decl(y.args[0], hv[0]) for y in a.walk()))
+        guarded = False
+        for br in hits:
+            taken = q.atom_edge(cfg, br, br[1].r['op'] == '!=')
+            cv = cfg.vertex_of(c)
+            if fcmp and all(cfg.path(t, lambda v: v == cv, avoid=q.verts(cfg, fcmp)) is None and t != cv for t in taken):
+                guarded = True
+        confirmed = confirmed or (used and bool(cmps)) or guarded
     ctx.check(confirmed, 'R14.2', 'parse_groups#confirm-on-match', ins[0].loc,
               'a key match is confirmed by comparing the two definitions before they are merged',
               'parse_groups merges two group definitions whenever their 32-bit keys are equal (the result of CommonGroups::insert is ignored and nothing is '
